@@ -52,9 +52,13 @@ class Env:
             json.dump(scenario, f)
         with open(self.plan, "w") as f:
             json.dump(plan or {}, f)
-        env = {"PATH": self.bin + ":/usr/bin:/bin", "TMPDIR": self.tmp, "CARGO_MANIFEST_DIR": self.crate, "VP_CMDLOG": self.log, "VP_CMDPLAN": self.plan, "VP_STANDIN_BIN": self.bin, "RUST_BACKTRACE": "0"}
+        # PATH holds the stand-ins only: a real docker CLI may be installed on the machine, and a stand-in that a scripted fault removed
+        # must really be "not found"
+        env = {"PATH": self.bin, "TMPDIR": self.tmp, "CARGO_MANIFEST_DIR": self.crate, "VP_CMDLOG": self.log, "VP_CMDPLAN": self.plan, "VP_STANDIN_BIN": self.bin, "VP_STANDIN_TARGET": os.path.join(vp.BIN, "vpstandin"), "RUST_BACKTRACE": "0"}
         try:
-            p = subprocess.run((vp.NOBODY if self.as_nobody else []) + [os.path.join(vp.BIN, "vptest"), self.scenario], env=env, stdout=subprocess.PIPE, stderr=subprocess.PIPE, timeout=timeout, cwd=self.root)
+            import shutil
+            nobody = [shutil.which(vp.NOBODY[0]) or vp.NOBODY[0]] + vp.NOBODY[1:]
+            p = subprocess.run((nobody if self.as_nobody else []) + [os.path.join(vp.BIN, "vptest"), self.scenario], env=env, stdout=subprocess.PIPE, stderr=subprocess.PIPE, timeout=timeout, cwd=self.root)
             rc, err = p.returncode, p.stderr.decode(errors="replace")
         except subprocess.TimeoutExpired:
             rc, err = None, "timeout"
